@@ -284,6 +284,54 @@ impl Check for Diagnostics {
 /// derived from the process-wide key-space counter, and the order of reports keyed by them, depend on how many
 /// analyses the process has run before — which differs between successive analyses in one worker, not
 /// between process instances.)
+/// programs rejected by the coverage pass whose diagnostic lists SEVERAL things: a comatch missing
+/// two or more destructors / repeating two or more, a match missing two or more constructors, nested
+/// gaps, and two such eliminations in one program
+fn coverage_rejections() -> Vec<String> {
+    let pre = "begin\n  let Ret = @(intrinsic(ret)) that\n  let Thk = @(intrinsic(thk)) that\n  let Unit = @(intrinsic(unit)) that\n  let Int64 = @(intrinsic(i64)) that\n  let Obj = codata | .open : Ret Int64 | .close : Ret Int64 | .quit : Ret Int64 | .sync : Ret Int64 end that\n  let Col = data | +Red : Unit | +Green : Unit | +Blue : Unit | +Cyan : Unit | +Pink : Unit end that\n  let Two = data | +L : Col | +R : Col end that\n";
+    let dtors = ["open", "close", "quit", "sync"];
+    let ctors = ["Red", "Green", "Blue", "Cyan", "Pink"];
+    let mut out = vec![];
+    // comatches supplying every subset of at most two destructors (two or more missing), in both orders
+    for mask in 0u32..16 {
+        if mask.count_ones() > 2 {
+            continue;
+        }
+        let chosen: Vec<&str> = (0..4).filter(|i| mask >> i & 1 == 1).map(|i| dtors[i]).collect();
+        for rev in [false, true] {
+            if rev && chosen.len() < 2 {
+                continue;
+            }
+            let mut c = chosen.clone();
+            if rev {
+                c.reverse();
+            }
+            let arms: String = c.iter().map(|d| format!(" | .{d} => ret 1")).collect();
+            out.push(format!("{pre}  let o : Thk Obj = {{ comatch{arms} end }} in\n  ! o .open\nend\n"));
+        }
+    }
+    // comatches repeating two or three destructors
+    for dup in [vec!["open", "close"], vec!["quit", "open", "sync"], vec!["sync", "quit"]] {
+        let mut arms: String = dtors.iter().map(|d| format!(" | .{d} => ret 1")).collect();
+        for d in &dup {
+            arms.push_str(&format!(" | .{d} => ret 2"));
+        }
+        out.push(format!("{pre}  let o : Thk Obj = {{ comatch{arms} end }} in\n  ! o .open\nend\n"));
+    }
+    // matches covering every subset of at most three of five constructors
+    for mask in 0u32..32 {
+        if mask.count_ones() > 3 {
+            continue;
+        }
+        let arms: String = (0..5).filter(|i| mask >> i & 1 == 1).map(|i| format!(" | +{}() => ret {}", ctors[i], i)).collect();
+        out.push(format!("{pre}  let c : Col = +Red() in\n  match c{arms} end\nend\n"));
+    }
+    // nested gaps and two eliminations with gaps in one program
+    out.push(format!("{pre}  let t : Two = +L(+Red()) in\n  match t | +L(+Red()) => ret 1 | +R(+Blue()) => ret 2 end\nend\n"));
+    out.push(format!("{pre}  let c : Col = +Red() in\n  let o : Thk Obj = {{ comatch | .open => match c | +Red() => ret 1 end end }} in\n  do x <- match c | +Blue() => ret 2 | +Pink() => ret 3 end;\n  ! o .open\nend\n"));
+    out
+}
+
 pub struct RejectedPrograms {
     texts: Vec<String>,
     seeds: u64,
@@ -292,7 +340,7 @@ pub struct RejectedPrograms {
 impl RejectedPrograms {
     pub fn new(tier: Tier) -> Self {
         let stride = if tier == Tier::Thorough { 8 } else { 40 };
-        let mut texts = vec![];
+        let mut texts = coverage_rejections();
         let mut k = 0usize;
         for p in crate::poly::universe(tier) {
             for (_, m) in crate::poly::mutants(&p) {
@@ -321,13 +369,13 @@ impl Check for RejectedPrograms {
         format!("ill-typed programs #{}.. analysed under hash seeds 0..{}; first:\n{}", i * self.chunk, self.seeds, self.texts[i * self.chunk])
     }
     fn rule(&self) -> String {
-        format!("every {}th single-site mutant of the System-F / F-omega universe that the reference checker rejects ({} programs: wrong variable, wrong type argument, wrong annotation, wrong package witness, escaping abstract type), each checked by the real zydeco binary, one fresh process per (program, hash seed 0..{}) under the getrandom interposer; oracle: exit status, stdout and stderr byte-identical across instances; non-trivial = every chunk", if self.seeds > 3 { 8 } else { 40 }, self.texts.len(), self.seeds)
+        format!("every {}th single-site mutant of the System-F / F-omega universe that the reference checker rejects ({} programs: wrong variable, wrong type argument, wrong annotation, wrong package witness, escaping abstract type) plus 53 programs the coverage pass rejects with a diagnostic that lists several things (comatches missing or repeating two or more of four destructors, matches missing two or more of five constructors, nested gaps, two gaps in one program), each checked by the real zydeco binary, one fresh process per (program, hash seed 0..{}) under the getrandom interposer; oracle: exit status, stdout and stderr byte-identical across instances; non-trivial = every chunk", if self.seeds > 3 { 8 } else { 40 }, self.texts.len(), self.seeds)
     }
     fn run(&mut self, i: usize) -> CaseResult {
         let a = i * self.chunk;
         let b = (a + self.chunk).min(self.texts.len());
         let mut r = CaseResult::ok("chunk").nontrivial(true).key(i as u64);
-        let bin = verif_root().join("target/debug/zydeco");
+        let bin = zydeco_bin();
         let scratch = Scratch::new("c16r");
         for text in &self.texts[a..b] {
             let _ = scratch.write("main.zydeco", text);
@@ -415,7 +463,7 @@ impl Check for StructuralMismatches {
         let a = i * self.chunk;
         let b = (a + self.chunk).min(self.texts.len());
         let mut r = CaseResult::ok("chunk").nontrivial(true).key(i as u64);
-        let bin = verif_root().join("target/debug/zydeco");
+        let bin = zydeco_bin();
         let scratch = Scratch::new("c16s");
         for text in &self.texts[a..b] {
             let _ = scratch.write("main.zydeco", text);
